@@ -7,7 +7,7 @@ _K = "model.arguments.num_clusters"
 _CP = "count_above(model.clusters[k].train_inverse, 0.00002)"
 _LLE = "logdet(model.clusters[k].train_inverse) - trace(matmul(model.clusters[k].train_inverse, model.clusters[k].empirical_covariance))"
 
-contract(CMx + 'bayesian_information_criterion', props=['C16', 'C19'],
+contract(CMx + 'bayesian_information_criterion', props=['C16'],
          params=dict(model='obj:ModelState'), returns='real',
          requires=["wf(model)", "len(model._point_labels) >= 1",
                    "forall(0, " + _K + ", lambda k: not isnone(model.clusters[k].train_inverse) and not isnone(model.clusters[k].empirical_covariance) and "
@@ -30,7 +30,7 @@ contract(CMx + 'bayesian_information_criterion', props=['C16', 'C19'],
                         modifies=[])})
 
 _NWc = "stacked_training_data.shape[1]"
-contract(CMx + 'calinski_harabasz_index', props=['C17', 'C19'],
+contract(CMx + 'calinski_harabasz_index', props=['C17'],
          params=dict(stacked_training_data='arr2[real]', model='obj:ModelState'), returns='real',
          requires=["wf(model)", "len(model.clusters) >= 2", "stacked_training_data.shape[0] > len(model.clusters)",
                    "len(model._point_labels) == stacked_training_data.shape[0]",
@@ -41,14 +41,14 @@ contract(CMx + 'calinski_harabasz_index', props=['C17', 'C19'],
          ghost={'numpy_float_division': True,    # np.float64 / 0 gives inf/nan, not ZeroDivisionError
                 'returns': dict(NUM='numerator', DEN='denominator', GC='global_center'),
                 'return_kinds': dict(NUM='arr2[real]', DEN='arr2[real]', GC='real'),
-                'native_ensures': [("native:matches-the-definition-with-the-per-column-centroid",
+                'native_ensures': [("[C17] native:matches-the-definition-with-the-per-column-centroid",
                                     "result == chi_definition(stacked_training_data, model)")]},
          ensures=[("ratio-and-degrees-of-freedom", "implies(trace(DEN) != 0, result == (trace(NUM) / trace(DEN)) * "
                    "((stacked_training_data.shape[0] - len(model.clusters)) / (len(model.clusters) - 1)))"),
                   # the property: cluster means are compared with the PER-COLUMN centroid of all windows
-                  ("global-centre-is-the-per-column-centroid", "forall(0, " + _NWc + ", lambda c: GC == colmean(stacked_training_data)[c])"),
+                  ("[C17] global-centre-is-the-per-column-centroid", "forall(0, " + _NWc + ", lambda c: GC == colmean(stacked_training_data)[c])"),
                   # what the code does instead (kept so that any further drift is noticed): the mean of ALL entries
-                  ("pinned:global-centre-is-the-mean-of-all-entries", "GC == mean_all(stacked_training_data)"),
+                  ("[C17] pinned:global-centre-is-the-mean-of-all-entries", "GC == mean_all(stacked_training_data)"),
                   "NUM.shape[0] == " + _NWc + " and DEN.shape[0] == " + _NWc,
                   "unchanged(stacked_training_data, model)"],
          loops={1: dict(peel=1, inv=["numerator.shape[0] == " + _NWc + " and numerator.shape[1] == " + _NWc,
